@@ -33,6 +33,7 @@ type c15Case struct {
 	Long     bool     `json:"long,omitempty"`     // options in their long spelling (--erase, --embed, --invert-region, --format fasta; the flag parser of gts does not take --name=value)
 	InPlace  bool     `json:"in_place,omitempty"` // insert, infix: -o names the guest / host file itself (an update in place)
 	Twice    bool     `json:"twice,omitempty"`    // the input stream holds the record twice: both copies must be treated alike
+	Lit      bool     `json:"lit,omitempty"`      // insert with a single guest: the guest is given literally on the command line (@residues) and has no features
 }
 
 type mRegion struct {
@@ -466,7 +467,10 @@ func c15Check(c c15Case) *Violation {
 			}
 			return out, nil
 		}
-		if c.Cmd == "insert" {
+		lit := c.Lit && c.Cmd == "insert" && nG == 1 && !c.InPlace && guestLens[0] > 0
+		if lit {
+			recs, v = run(c.argv(c.Locators[0], "@"+string(guests[0])), input)
+		} else if c.Cmd == "insert" {
 			path := filepath.Join(env.dir, "guest.gb")
 			os.WriteFile(path, guestRec, 0o644)
 			recs, v = runIn(path, input)
@@ -562,7 +566,7 @@ func c15Check(c c15Case) *Violation {
 					}
 				}
 			}
-			if gl > 0 {
+			if gl > 0 && !lit {
 				if n := len(byLabel(rec.feats)["guest"]); n != len(positions) {
 					return viol("feature", "%s: %d copies of the guest feature for %d insertions", what, n, len(positions))
 				}
@@ -868,6 +872,9 @@ func c15Classify(c c15Case) (bool, []string) {
 	if mod(c.Sin, 4) == 3 {
 		labels = append(labels, "stdin-terminal-input-by-path")
 	}
+	if c.Lit && c.Cmd == "insert" {
+		labels = append(labels, "literal-guest")
+	}
 	if c.InPlace {
 		labels = append(labels, "in-place")
 	}
@@ -924,6 +931,7 @@ func c15Gen(t *rapid.T) c15Case {
 		c.InPlace = rapid.IntRange(0, 4).Draw(t, "inplace") == 0
 	}
 	c.Sin = rapid.SampledFrom([]int{0, 0, 0, 0, 1, 2, 3}).Draw(t, "sin")
+	c.Lit = c.Cmd == "insert" && rapid.IntRange(0, 3).Draw(t, "lit") == 0
 	c.Long = rapid.IntRange(0, 2).Draw(t, "long") == 0
 	if rapid.IntRange(0, 3).Draw(t, "mixed") == 0 {
 		c.Pre = rapid.SliceOfN(rapid.IntRange(0, 4), 0, 2).Draw(t, "pre")
